@@ -178,6 +178,11 @@ def CANDIDATES(func: str):
     if func == "forward_reference":
         yield from _cand_forward()
         return
+    if func == "typevar_state":
+        for u in range(4):
+            for a in range(4):
+                yield [[u, a] + [0] * (SEL_LEN - 2)]
+        return
 
     dec = {"unrelated_module": _dec_unrelated, "alias_table": _dec_alias, "permutation": _dec_perm}[func]
     for vec in all_vectors(dec, SEL_LEN):
@@ -223,3 +228,93 @@ def _cand_forward():
     for a in range(2):
         for b in range(2):
             yield [[a, b] + [0] * 22]
+
+
+# ------------------------------------------------------------------------------------------------- visitor state between declarations
+_TV_SOURCES = {
+    "pkg/__init__.py": "",
+    # unrelated modules: a generic class with class-level attributes typed by its type variable
+    "pkg/a0.py": "from typing import Generic, TypeVar\n\nT = TypeVar('T')\n\n\nclass Box(Generic[T]):\n    value: T\n",
+    "pkg/a1.py": "from typing import Generic, TypeVar\n\nT = TypeVar('T')\n\n\nclass Box(Generic[T]):\n    items: list[T]\n    other: int\n",
+    "pkg/a2.py": "from typing import Generic, TypeVar\n\nT = TypeVar('T')\n\n\nclass Box(Generic[T]):\n    def get(self) -> T: ...\n    value: T\n",
+    "pkg/a3.py": "from typing import TypeVar\n\nT = TypeVar('T')\n\n\ndef ident(x: T) -> T: ...\n",
+    # the module under observation
+    "pkg/m.py": "from typing import TypeVar\n\nU = TypeVar('U')\n\n\ndef helper(x: int) -> int: ...\n\n\nclass Plain:\n    def meth(self, x: int) -> int: ...\n\n\ndef g(y: U) -> U: ...\n",
+    # the same declarations inside one module, class first / function first
+    "pkg/s0.py": "from typing import Generic, TypeVar\n\nT = TypeVar('T')\n\n\nclass Box(Generic[T]):\n    value: T\n\n\ndef helper(x: int) -> int: ...\n",
+    "pkg/s1.py": "from typing import Generic, TypeVar\n\nT = TypeVar('T')\n\n\ndef helper(x: int) -> int: ...\n\n\nclass Box(Generic[T]):\n    value: T\n",
+}
+_TV_TREES: dict = {}
+
+
+def _tv_trees():
+    """The real mypy trees of _TV_SOURCES, converted to shim trees once per process (natively)."""
+    if not _TV_TREES:
+        import shutil
+
+        from vlib import shim_conformance as SC
+
+        with untraced():
+            root = SC.write_package(_TV_SOURCES)
+            try:
+                real, _ = SC.real_trees(root)
+                shim.install()
+                for t in real:
+                    _TV_TREES[t.fullname] = t
+            finally:
+                shutil.rmtree(root, ignore_errors=True)
+    return _TV_TREES
+
+
+PREPARE_typevar_state = _tv_trees  # the worker calls this natively before the symbolic run
+
+
+def _type_vars_after(order: list) -> dict:
+    """Walk the modules in the given order with ONE visitor (as get_api does); function id -> names of its type variables."""
+    trees = _tv_trees()
+    api = API("", "pkg", "")
+    vis = V.MyPyAstVisitor(PlaintextDocstringParser(), api, {}, TypeSourcePreference.CODE, TypeSourceWarning.IGNORE)
+    walker = W.ASTWalker(vis)
+    with untraced():  # the real->shim conversion is not the code under test
+        conv = shim.Converter()
+        converted = [conv.conv(trees[name]) for name in order]
+    for tree in converted:
+        walker.walk(tree)
+    return {fid: sorted(tv.name for tv in f.type_var_types) for fid, f in api.functions.items()}
+
+
+def typevar_state(sel: List[int]) -> bool:
+    """The type variables recorded for a function are those of its own signature: they do not depend on which module was
+    analysed before (an unrelated generic class with TypeVar-typed class attributes) nor on the order of definitions.
+
+    pre: len(sel) == SEL_LEN and fixed(sel)
+    post: _
+    """
+    try:
+        cur = Cur()
+        unrelated = rd(sel, cur, 4)
+        arrangement = rd(sel, cur, 4)  # unrelated module walked first / last / first and (a second copy) last / same-module pair s0 vs s1
+    except OutOfRange:
+        return True
+    u = f"pkg.a{unrelated}"
+    if arrangement == 3:
+        if unrelated:
+            return True
+        a = {k.split("/")[-1]: v for k, v in _type_vars_after(["pkg.s0"]).items()}
+        b = {k.split("/")[-1]: v for k, v in _type_vars_after(["pkg.s1"]).items()}
+        want = {"helper": []}
+    else:
+        order = [[u, "pkg.m"], ["pkg.m", u], [u, "pkg.m", f"pkg.a{(unrelated + 1) % 4}"]][arrangement]
+        a = {k: v for k, v in _type_vars_after(order).items() if k.startswith("pkg/m/")}
+        b = {k: v for k, v in _type_vars_after(["pkg.m"]).items()}
+        want = {"pkg/m/helper": [], "pkg/m/Plain/meth": [], "pkg/m/g": ["U"]}
+    note("oracle")
+    labels = []
+    with untraced():
+        if a != b:
+            labels.append("function-type-variables-depend-on-what-was-analysed-before")
+        for k, v in want.items():
+            if a.get(k) != v:
+                labels.append("function-type-variables-differ-from-its-signature")
+    return judge(sorted(set(labels)))
+
